@@ -519,7 +519,7 @@ def genC (E : CEnv) : Nat → GenFn
               let fits := if s.varargs then decide (args.length ≥ s.nargs) else decide (args.length = s.nargs)
               if s.tail && f = s.funcname && fits then do
                 let (a, s1) ← genSeq rec' args { s with tail := false }
-                some (a ++ [KI.prepCall args.length] ++ List.replicate (s1.scopes + 1) KI.remScope ++ [KI.goto0],
+                some (a ++ [KI.prepCall args.length] ++ List.replicate (s1.scopes + 1) KI.remScope ++ [KI.goto0, KI.callX f args.length],   -- fix C09-02: the ordinary call behind the jump (the guard itself is not context-sensitive)
                       { s1 with tail := s.tail })
               else some ([.callX f args.length], s)
         | _ => some ([.callX "?" args.length], s)   -- GenerateDispatch
